@@ -13,6 +13,30 @@ import torch
 from torch.utils.data._utils import worker as tw
 
 
+# ---- OS entropy seam -------------------------------------------------------------------------------------------------
+# numpy's SeedSequence obtains OS entropy through the module attribute numpy.random.bit_generator.randbits.  Under
+# simulation every process incarnation gets its own deterministic entropy stream, so `default_rng()` without a seed is
+# repeatable run for run (replay works) and still differs between two incarnations of "the same" worker (as it would
+# with real OS entropy).
+import numpy.random.bit_generator as _bg
+
+_ENTROPY = {"default": random.Random("entropy/default"), "current": None, "incarnations": 0}
+
+
+def _sim_randbits(n):
+    src = _ENTROPY["current"] or _ENTROPY["default"]
+    return src.getrandbits(n)
+
+
+_bg.randbits = _sim_randbits
+
+
+def reset_entropy():
+    _ENTROPY["default"] = random.Random("entropy/default")
+    _ENTROPY["current"] = None
+    _ENTROPY["incarnations"] = 0
+
+
 def save_amb():
     return (random.getstate(), np.random.get_state(), torch.get_rng_state())
 
@@ -48,6 +72,8 @@ class SimProcess:
     def __init__(self, name, amb_seed, worker_info=None):
         self.name = name
         self.amb = amb_from_seed(amb_seed)
+        _ENTROPY["incarnations"] += 1
+        self.entropy = random.Random(f"entropy/{name}/{amb_seed}/{_ENTROPY['incarnations']}")
         self.worker_info = worker_info
         self.objects = {}
         self._depth = 0
@@ -58,14 +84,17 @@ class SimProcess:
         self._depth = 1
         outer = save_amb()
         outer_wi = tw._worker_info
+        outer_entropy = _ENTROPY["current"]
         load_amb(self.amb)
         tw._worker_info = self.worker_info
+        _ENTROPY["current"] = self.entropy
         try:
             yield self
         finally:
             self.amb = save_amb()
             load_amb(outer)
             tw._worker_info = outer_wi
+            _ENTROPY["current"] = outer_entropy
             self._depth = 0
 
     def clobber(self, which, seed):
